@@ -28,6 +28,25 @@ def place_path(p):
     return ".".join(out)
 
 
+def path_elems(p, skip_first_field=False):
+    out = []
+    skipped = not skip_first_field
+    for e in p["p"]:
+        if e == "*":
+            continue
+        if isinstance(e, dict):
+            if "f" in e:
+                if not skipped:
+                    skipped = True
+                    continue
+                out.append(str(e["n"] if e.get("n") is not None else e["f"]))
+            elif "v" in e:
+                out.append(str(e["n"] if e.get("n") is not None else e["v"]))
+            elif "idx" in e or "cidx" in e:
+                out.append("[]")
+    return tuple(out)
+
+
 def describe(prog, body, op, allowed, depth=0):
     """Canonical descriptor of an argument operand, sliced backwards inside `allowed` blocks.
     Tuple / array aggregates are followed field-sensitively."""
@@ -44,13 +63,15 @@ def describe(prog, body, op, allowed, depth=0):
                 return e["f"]
         return None
 
-    def push(p, work):
-        if p["l"] == 1 and p["p"] and any(e != "*" for e in p["p"]):
-            atoms.add("f:" + place_path(p))
+    def push(p, work, suffix=()):
+        # `suffix`: what is read of the value later on (`_5 = &(*_1).0; .. ((*_5) as Disable).0` reads `self.0.Disable.0`) — the
+        # descriptor is the whole access path, however many reference locals it goes through
+        if p["l"] == 1 and (suffix or (p["p"] and any(e != "*" for e in p["p"]))):
+            atoms.add("f:" + ".".join(path_elems(p) + tuple(suffix)))
         elif p["l"] == 1:
             atoms.add("f:self")
         else:
-            work.append((p["l"], first_field(p)))
+            work.append((p["l"], first_field(p), path_elems(p), path_elems(p, True), tuple(suffix)))
 
     def note_const(k):
         v = const_str(k)
@@ -58,6 +79,8 @@ def describe(prog, body, op, allowed, depth=0):
             atoms.add('"%s"' % v)
         elif "[u8" in k["ty"]:
             atoms.add("tpl:" + k["c"])
+        elif k["ty"].rstrip("]").endswith("; 0"):
+            atoms.add("empty[]")
         elif k.get("int") is not None:
             atoms.add("int:%d" % k["int"])
 
@@ -65,10 +88,10 @@ def describe(prog, body, op, allowed, depth=0):
     if op_place(op) is not None:
         push(op_place(op), work)
     while work:
-        l, fsel = work.pop()
-        if (l, fsel) in seen:
+        l, fsel, whole, rest, suffix = work.pop()
+        if (l, fsel, whole, suffix) in seen:
             continue
-        seen.add((l, fsel))
+        seen.add((l, fsel, whole, suffix))
         for bb in allowed:
             blk = body.blocks[bb]
             for s in blk["s"]:
@@ -76,14 +99,32 @@ def describe(prog, body, op, allowed, depth=0):
                     continue
                 rv = s["rv"]
                 ops = []
-                if rv["k"] in ("use", "cast", "repeat"):
+                nsuf = ()
+                if s["place"]["p"] and any(e != "*" for e in s["place"]["p"]):
+                    pass        # a write to a part of the local: followed without a path
+                elif rv["k"] in ("use", "cast", "repeat"):
+                    ops = [rv["op"]]
+                    nsuf = whole + suffix if rv["k"] == "use" else ()
+                elif rv["k"] in ("ref", "rawptr", "discr"):
+                    ops = [{"copy": rv["place"]}]
+                    nsuf = whole + suffix if rv["k"] == "ref" else ()
+                if ops:
+                    pass
+                elif rv["k"] in ("use", "cast", "repeat"):
                     ops = [rv["op"]]
                 elif rv["k"] in ("ref", "rawptr", "discr"):
                     ops = [{"copy": rv["place"]}]
                 elif rv["k"] == "agg":
                     ops = rv["ops"]
+                    if rv["agg"] == "array" and not ops:
+                        atoms.add("empty[]")
                     if fsel is not None and rv["agg"] in ("tuple", "array") and fsel < len(ops):
                         ops = [ops[fsel]]
+                        nsuf = rest + suffix if rv["agg"] == "tuple" else ()
+                    elif fsel is None and not whole and suffix and suffix[0].isdigit() and rv["agg"] == "tuple" and int(suffix[0]) < len(ops):
+                        # the component was selected on a copy of the tuple (`_4 = move _ret; _2 = _4.0`)
+                        ops = [ops[int(suffix[0])]]
+                        nsuf = suffix[1:]
                 elif rv["k"] == "binop":
                     ops = [rv["a"], rv["b"]]
                     atoms.add("op:" + rv["op"])
@@ -96,10 +137,21 @@ def describe(prog, body, op, allowed, depth=0):
                         continue
                     p = op_place(o)
                     if p is not None:
-                        push(p, work)
+                        push(p, work, nsuf)
             t = blk["t"]
             if t["k"] == "call" and t["dest"]["l"] == l:
                 ns = callee_names(t)
+                if "core::fmt::Arguments::new" in ns and depth < 3:
+                    folded = _fold_fmt(prog, body, t, allowed, depth)
+                    if folded is not None:
+                        atoms.add(folded[0])
+                        for o in folded[1]:
+                            k = op_const(o)
+                            if k is not None:
+                                note_const(k)
+                            elif op_place(o) is not None:
+                                push(op_place(o), work)
+                        continue
                 if not any(n in IDENT for n in ns):
                     parts = ns[0].split("::")
                     name = "::".join(parts[-2:])
@@ -117,6 +169,87 @@ def describe(prog, body, op, allowed, depth=0):
     if len(atoms) == 1:
         return next(iter(atoms))
     return "<" + "|".join(sorted(atoms)) + ">"
+
+
+def _def_in(body, allowed, l):
+    """the definitions of a local on the path: [('assign', stmt) | ('call', terminator)]"""
+    out = []
+    for bb in allowed:
+        blk = body.blocks[bb]
+        for s in blk["s"]:
+            if s["k"] == "assign" and s["place"]["l"] == l and not s["place"]["p"]:
+                out.append(("assign", s))
+        t = blk["t"]
+        if t["k"] == "call" and t["dest"]["l"] == l and not t["dest"]["p"]:
+            out.append(("call", t))
+    return out
+
+
+def _through_refs(body, allowed, op, want):
+    """follow `&`, `&*` and plain copies from an operand to the one definition `want` accepts"""
+    for _ in range(8):
+        c = op_const(op)
+        if c is not None:
+            return want("const", c)
+        p = op_place(op)
+        if p is None or any(e != "*" for e in p["p"]):
+            return None
+        ds = _def_in(body, allowed, p["l"])
+        if len(ds) != 1:
+            return None
+        kind, d = ds[0]
+        r = want(kind, d)
+        if r is not None:
+            return r
+        if kind != "assign":
+            return None
+        rv = d["rv"]
+        if rv["k"] == "use":
+            op = rv["op"]
+        elif rv["k"] == "ref" and all(e == "*" for e in rv["place"]["p"]):
+            op = {"copy": rv["place"]}
+        else:
+            return None
+    return None
+
+
+def _fold_fmt(prog, body, t, allowed, depth):
+    """`format_args!("{sign}{:.3}", secs)` on a path where `sign` is the constant "+" writes what `format_args!("+{:.3}", secs)`
+    writes: a plainly displayed constant string is folded into the template.  Returns (template atom, operands of the remaining
+    arguments) or None when nothing is folded (then the call is described as before)."""
+    from . import fmttpl
+    if len(t["args"]) != 2:
+        return None
+    tpl = _through_refs(body, allowed, t["args"][0], lambda k, d: fmttpl.parse_const(d["c"]) if k == "const" and "[u8" in d["ty"] else None)
+    arr = _through_refs(body, allowed, t["args"][1],
+                        lambda k, d: d["rv"]["ops"] if k == "assign" and d["rv"]["k"] == "agg" and d["rv"].get("agg") == "array" else None)
+    if tpl is None or arr is None:
+        return None
+    pieces = fmttpl.decode(tpl)
+    if pieces is None:
+        return None
+    args = []
+    for o in arr:
+        a = _through_refs(body, allowed, o, lambda k, d: (callee_names(d), d["args"]) if k == "call" else None)
+        if a is None or len(a[1]) != 1:
+            return None
+        args.append(a)
+    phs = [i for i, pc in enumerate(pieces) if pc[0] == "ph"]
+    if len(phs) != len(args):
+        return None
+    folded = False
+    keep = []
+    for n, i in enumerate(phs):
+        ns, aops = args[n]
+        d = describe(prog, body, aops[0], allowed, depth + 1) if pieces[i][2] and "core::fmt::rt::Argument::new_display" in ns else ""
+        if len(d) >= 2 and d[0] == '"' and d[-1] == '"' and "|" not in d:
+            pieces[i] = ("lit", d[1:-1].encode())
+            folded = True
+        else:
+            keep.append(aops[0])
+    if not folded:
+        return None
+    return "tpl:" + fmttpl.rust_repr(fmttpl.encode(pieces)), keep
 
 
 def shapes_of(prog, body, max_paths=400):
@@ -186,7 +319,8 @@ def shapes_of(prog, body, max_paths=400):
                     d = describe(prog, body, t["args"][1], path)
                     if bb in loops_blocks:
                         d += "*"
-                    nv = ("cmd", v[1], v[2] + (d,))
+                    # a loop over an empty array literal (`("all", &[])`) runs zero times
+                    nv = ("cmd", v[1], v[2] + (d,)) if d != "empty[]*" else v
                     if RAW + "argument" in ns:
                         state[dst] = nv
                     else:
